@@ -264,7 +264,7 @@ def gen_heat_tree(rng, n_junc=None):
 HC_MODES = ["MF_QE", "MF_DT", "MF_TR", "QE_DT", "QE_TR"]
 
 
-def gen_heat_loop(rng, n_cons=None, modes=None, with_hex=True):
+def gen_heat_loop(rng, n_cons=None, modes=None, with_hex=True, makeup=False):
     """district heating loop: circulation pump feeds a flow line, consumers / exchangers connect flow
     and return line rungs (ladder network)."""
     k = int(n_cons or rng.integers(1, 6))
@@ -334,6 +334,13 @@ def gen_heat_loop(rng, n_cons=None, modes=None, with_hex=True):
     else:
         s["circ_pumps_p"].append({"return": 1, "flow": 0, "p_flow_bar": 6.0, "plift_bar": float(rng.uniform(1.0, 3.0)),
                                   "t_flow_k": t_flow, "in_service": True})
+    if makeup:
+        # make-up supply: one or two ext grids on the circulation pump's flow junction (same set-points as the pump) and a
+        # small net consumption somewhere in the loop, which only the ext grids can feed
+        for _ in range(int(rng.choice([1, 1, 2]))):
+            s["ext_grids"].append({"junction": 0, "p_bar": 6.0, "t_k": t_flow, "type": "pt", "in_service": True})
+        s["sinks"].append({"junction": int(rng.integers(1, n)), "mdot": float(rng.uniform(0.02, 0.2)), "scaling": 1.0,
+                           "in_service": True})
     s["options"] = {"mode": str(rng.choice(["sequential", "bidirectional"])), "use_numba": bool(rng.random() < 0.5),
                     "friction_model": "nikuradse", "max_iter_hyd": 100, "max_iter_therm": 100, "max_iter_bidirect": 100}
     return s
